@@ -90,6 +90,15 @@ def c01_scenarios():
         ppm["lenient"] = True
         ppm["schedules"] = [["p1"] * 3 + ["p2"] * 7 + ["p3"] * 9]
     s.append(ppm)
+    # a retry of a quote whose first attempt failed: the backend's FAILED about the first attempt is the truth until the new payment
+    # reaches it; a poll in the window between the retry's PENDING writes and its payment must leave the quote alone
+    failed1 = FUND + [mq(7), melt("lq1", "b1", pay=["failed"], status=["failed"])]
+    rm = scenario("remelt-pollmelt-swap", "C01", failed1, [melt("lq1", "b1"), {"op": "pollmelt", "q": "lq1"}, swap("b1", [8])],
+                  post=PROBE + [{"op": "pollmelt", "q": "lq1"}, {"op": "checkstate", "ys": ["b1"]}, {"op": "balances"}])
+    if tier() != "thorough":
+        rm["lenient"] = True     # quick: the window itself (retry stopped in front of GetMintQuoteByPaymentHash); thorough: all interleavings
+        rm["schedules"] = [["p1"] * 6 + ["p2"] * 7 + ["p3"] * 6, ["p1"] * 7 + ["p2"] * 7 + ["p3"] * 6]
+    s.append(rm)
     if tier() == "thorough":
         s.append(scenario("swap-swap-swap", "C01", FUND, [swap("b1", [8]), swap("b1", [4, 4]), swap("b1", [2, 2, 4])]))
         s.append(scenario("swap-swap-melt", "C01", FUND + [mq(7)], [swap("b1", [8]), swap("b1", [4, 4]), melt("lq1", "b1")]))
